@@ -1590,8 +1590,9 @@ fn main() {
     let mut r = Rng::new(a.seed);
     let pool = pool();
     let mul = a.scale * if a.thorough { 20 } else { 1 };
-    // the model needs about 1 s (big) and 2.5 s (huge) per case: x4 only
-    let mul_big = a.scale * if a.thorough { 4 } else { 1 };
+    // the extracted model (lists, unary positions) needs about 0.5 s (big) and
+    // 1 s (huge) per case: 8/3 scripts x 4 compressors in the quick tier, x8 in thorough
+    let mul_big = a.scale * if a.thorough { 8 } else { 1 };
     let mut idx = 0u64;
 
     for (script, combos) in corpus(&pool) {
@@ -1605,7 +1606,7 @@ fn main() {
     }
 
     // (number of scripts, size label); every script runs under the four compressors
-    let plan: [(u64, &str); 4] = [(600 * mul, "small"), (60 * mul, "medium"), (16 * mul_big, "big"), (6 * mul_big, "huge")];
+    let plan: [(u64, &str); 4] = [(600 * mul, "small"), (60 * mul, "medium"), (8 * mul_big, "big"), (3 * mul_big, "huge")];
     for (n, size) in plan {
         for j in 0..n {
             let mut gr = r.fork();
